@@ -359,16 +359,16 @@ Proof.
 Qed.
 
 (* the two slices of a node with well-formed position data *)
-Lemma wf_slices : forall src p, wf_pos src p = true -> range_is_empty p = false ->
+Lemma wf_slices : forall src p, wf_pos src p = true ->
   exists x txt rest2,
     split_at_byte src (np_start p) = Some (x, txt ++ rest2) /\
     slice_bytes 1 src (np_start p) (np_end p) = Ok txt /\
     slice_bytes 3 src (np_start p) (np_end p) = Ok txt /\
     slice_bytes 2 src (np_start p) (np_start p + utf8_bytes (until_nl txt)) = Ok (until_nl txt).
 Proof.
-  intros src p Hwf Hne. unfold wf_pos, is_boundary in Hwf. unfold range_is_empty in Hne.
+  intros src p Hwf. unfold wf_pos, is_boundary in Hwf.
   apply andb_true_iff in Hwf. destruct Hwf as [Hwf Hb]. apply andb_true_iff in Hwf. destruct Hwf as [Hle Ha].
-  apply N.leb_le in Hle. apply N.leb_gt in Hne.
+  apply N.leb_le in Hle.
   destruct (split_at_byte src (np_start p)) as [[x rest]|] eqn:Ea; [|discriminate].
   destruct (split_at_byte src (np_end p)) as [[y rest2]|] eqn:Eb; [|discriminate].
   destruct (slice_between _ _ _ _ _ _ _ Ea Eb Hle) as [txt [-> Hmid]].
@@ -398,7 +398,7 @@ Proof.
   intros path src k p Hwf. unfold display_plain, plain_text.
   destruct (range_is_empty p) eqn:Em.
   - exists []. split; [discriminate|]. rewrite <- !app_assoc. reflexivity.
-  - destruct (wf_slices src p Hwf Em) as [x [txt [rest2 [_ [S1 [_ S2]]]]]].
+  - destruct (wf_slices src p Hwf) as [x [txt [rest2 [_ [S1 [_ S2]]]]]].
     exists txt. split; [intros _; exact S1|].
     rewrite S1. cbn [obind]. rewrite S2. cbn [obind]. rewrite <- !app_assoc. reflexivity.
 Qed.
@@ -407,8 +407,7 @@ Lemma display_pretty_lemma : forall path src k p, wf_pos src p = true ->
   exists s, display_pretty path src k p = Ok s.
 Proof.
   intros path src k p Hwf. unfold display_pretty.
-  destruct (range_is_empty p) eqn:Em; [eauto|].
-  destruct (wf_slices src p Hwf Em) as [x [txt [rest2 [_ [_ [S3 _]]]]]].
+  destruct (wf_slices src p Hwf) as [x [txt [rest2 [_ [_ [S3 _]]]]]].
   rewrite S3. cbn [obind]. eauto.
 Qed.
 
@@ -437,44 +436,28 @@ Proof.
 Qed.
 
 Lemma display_pretty_cites_lemma : forall path src k p s,
-  range_is_empty p = false ->
   display_pretty path src k p = Ok s -> contains (cite path (np_row p) (np_col p)) s = true.
 Proof.
-  intros path src k p s Em. unfold display_pretty. rewrite Em.
+  intros path src k p s. unfold display_pretty.
   destruct (slice_bytes 3 src (np_start p) (np_end p)) as [txt| | |]; cbn [obind]; try discriminate.
   intros E. injection E as <-. unfold excerpt.
   destruct (nth_error (lines src) (N.to_nat (np_row p)));
     rewrite <- (app_assoc (cite path (np_row p) (np_col p))); apply contains_app.
 Qed.
 
-(* the empty-range branch of the pretty display prints no position at all *)
-Lemma is_prefix_In : forall n h c, is_prefix n h = true -> In c n -> In c h.
+(* a zero-width node (every MISSING node): empty slice, excerpt with the empty column range col..col *)
+Lemma display_pretty_zero_width_lemma : forall path src k p,
+  wf_pos src p = true -> np_start p = np_end p ->
+  display_pretty path src k p =
+    Ok ((kind_text k ++ [10]) ++ excerpt path src (np_row p) (np_col p) (np_col p)).
 Proof.
-  induction n as [|x n IH]; intros h c H Hin; [destruct Hin|].
-  destruct h as [|y h]; [discriminate|]. cbn [is_prefix] in H.
-  apply andb_true_iff in H. destruct H as [E H]. apply N.eqb_eq in E. subst y.
-  destruct Hin as [->|Hin]; [left; reflexivity|right; eapply IH; eauto].
-Qed.
-
-Lemma contains_In : forall h n c, contains n h = true -> In c n -> In c h.
-Proof.
-  induction h as [|y h IH]; intros n c H Hin; cbn [contains] in H.
-  - rewrite orb_false_r in H. eapply is_prefix_In; eauto.
-  - apply orb_true_iff in H. destruct H as [H|H]; [eapply is_prefix_In; eauto|].
-    right. eapply IH; eauto.
-Qed.
-
-Lemma display_pretty_empty_lemma : forall path src k p, range_is_empty p = true ->
-  display_pretty path src k p = Ok (kind_text k ++ [10; 10]) /\
-  contains (cite path (np_row p) (np_col p)) (kind_text k ++ [10; 10]) = false.
-Proof.
-  intros path src k p Em. unfold display_pretty. rewrite Em. split.
-  - rewrite <- app_assoc. reflexivity.
-  - destruct (contains _ _) eqn:C; [|reflexivity]. exfalso.
-    assert (Hin : In 58 (kind_text k ++ [10; 10])).
-    { eapply contains_In; [exact C|]. unfold cite. apply in_or_app. right. left. reflexivity. }
-    destruct k; cbn [kind_text app In] in Hin;
-      repeat (destruct Hin as [Hin|Hin]; [discriminate Hin|]); exact Hin.
+  intros path src k p Hwf E. unfold wf_pos, is_boundary in Hwf.
+  apply andb_true_iff in Hwf. destruct Hwf as [Hwf _]. apply andb_true_iff in Hwf. destruct Hwf as [_ Ha].
+  unfold display_pretty, slice_bytes. rewrite <- E.
+  destruct (N.ltb_spec (np_start p) (np_start p)); [lia|].
+  destruct (split_at_byte src (np_start p)) as [[x rest]|]; [|discriminate].
+  rewrite N.sub_diag, split_at_byte_0. cbn [obind until_nl length N.of_nat].
+  rewrite N.add_0_r. reflexivity.
 Qed.
 
 (* ------------------------------------------------------------------ `dec` is the decimal numeral *)
